@@ -352,7 +352,8 @@ func (g *Gen) priceList() ([]Coin, bool) {
 	out := []Coin{}
 	for d := 1; d <= 3; d++ {
 		if g.chance(0.6) {
-			out = append(out, Coin{d, g.oneOf(big.NewInt(1), big.NewInt(7), big.NewInt(int64(1+g.pick(250))), big.NewInt(1000003), pow(10, 12))})
+			out = append(out, Coin{d, g.oneOf(big.NewInt(1), big.NewInt(7), big.NewInt(int64(1+g.pick(250))), big.NewInt(1000003), pow(10, 12),
+				pow(10, 18), badd(bmul(pow(10, 20), 3), big.NewInt(1)))}) // 18-decimal prices: an inexact reciprocal of the hours shows (seed C05_4)
 		}
 	}
 	if len(out) == 0 {
